@@ -20,6 +20,40 @@ CHECKS = {
         design='7 (C20)'),
 }
 
+CONV = ("Shared conversion model (coq/Model/Conv.v, Into.v): the fast pass, the diagnostic pass and the serialiser written separately "
+        "from each converter class; scalar table, isinstance gates, except clauses and stock-condition operators re-extracted from "
+        "the source on every run (Gen/*.v); control flow tied by differential execution inside coqc on generated (type, value) cases. ")
+
+CHECKS.update({
+    'C03': dict(text=CONV + "Theorem (unbounded, by induction on the type with a nested induction principle): for every well-formed type "
+                "and EVERY value, try_convert rejects iff collect_errors returns a tree, accepts iff it returns None, and convert never raises "
+                "the internal RuntimeError. The proof consumes the generated except-clause facts, so narrowing an except breaks it.",
+                technique='Coq proof by structural induction on types + reflected except/gate/scalar tables + vm_compute correspondence', design='7 (C03)'),
+    'C04': dict(text=CONV + "Theorem: no exception class other than ParseInterrupt/ConvertError leaves either pass, for every well-formed type "
+                "and EVERY value, given the except clauses reflected from the current source (sites_total). Converter-build totality for "
+                "documented types and TypeError/UnsupportedAnnotation for unsupported ones are checked on pane (not modelled: the model's "
+                "types are post-dispatch). Entry points convert / Cls.from_data / from_json / from_yaml are exercised by the monitor.",
+                technique='Coq proof (escape-freedom from reflected except clauses) + adversarial-leaf correspondence/monitor', design='7 (C04)'),
+    'C05': dict(text=CONV + "Theorems: round trip from_data(into_data(x,T),T)=x proved for all types of the kind-disjoint core fragment (scalars, None, "
+                "lists, variadic and fixed tuples, any nesting) - named _partial; bool stays bool; the union side condition is necessary "
+                "(_refuted with witness). Dataclass layouts/renaming/aliases, mappings, sets, enums, tagged unions: correspondence of the "
+                "serialiser model + round-trip monitor over the configuration product; recorded findings in known_findings.json.",
+                technique='Coq proof on a core fragment (partial) + serialiser correspondence + round-trip monitor', design='7 (C05)'),
+    'C06': dict(text=CONV + "Theorems: convert(x,T)=x and idempotence proved on the core fragment (_partial), with convert modelled as parse(serialise-by-own-class). "
+                "Natively built values (Fraction, Decimal, datetime, path, pattern, set, deque, enum, dataclass; nested) and constructor "
+                "arguments are checked on pane; Range / ValueOrList are recorded findings.",
+                technique='Coq proof on a core fragment (partial) + convert correspondence + native-value monitor', design='7 (C06)'),
+    'C11': dict(text=CONV + "Theorems (all types, all values): the union result is exactly that of the left-most accepting member (index-based spec), "
+                "rejection iff all members reject, nesting/flattening and Optional[Optional[X]] are invisible, the full conversion succeeds "
+                "iff some member accepts. Serialisation through an accepting member: serialiser correspondence + monitor on overlap-biased unions.",
+                technique='Coq proof against an index-based first-accepting-member spec + overlap-biased correspondence', design='7 (C11)'),
+    'C13': dict(text=CONV + "Theorems: Annotated[T,c] accepts v iff T accepts and c evaluates to True on the converted value (value unchanged); a raising "
+                "predicate is a failed condition whose node carries the cause; serialisation ignores conditions; all/any/not are the Boolean "
+                "connectives; sign conditions, val_range and len_range (inclusive), empty/non-empty, finite against exact Z / dyadic arithmetic, "
+                "with operators reflected from pane/annotations.py by AST. Exhaustive boundary stream on pane. Array-shape conditions are not modelled.",
+                technique='Coq proof + AST-reflected stock-condition operators + exhaustive boundary correspondence', design='7 (C13)'),
+})
+
 PENDING = {}
 
 
